@@ -78,6 +78,15 @@ parallel state on the model side.  selfcheck: build_f from the same state accept
 commands and reaches the same contents (confluence).  Counted: events, the largest number of commands running at once per
 build.  Pools (the console pool too) are kept out: they constrain the schedule in a way the model does not know.
 
+KEEP GOING (coq/Engine/HistFailKDefs.v buildFK, theorems in Properties_C05keepgoing.v; fault='k', second hook of props/c05.py):
+the failing build of a history carries 2-3 faults and runs with -j1 -k N, N in {0 (no limit), 1, 2, 3} (model step
+`f..@..@k<N>`).  The model's statements are numbered in ninja's START order of that build -- each started command preceded by
+what it needs -- up to the finish of the N-th failing command, then the rest in manifest order.  Compared: accept; failed
+(exit status); failed-edge: the SET of failed statements; run-set: the commands started; dependents: nothing that depends on a
+failed statement was started; not-recorded; budget: at most N failures and no start after the N-th (engine events); the state
+rules; then the following builds.  buildFK sits on the re-scanning loop (dirty_now): these graphs get no input-less phony
+statement (an input-less phony statement is given a source input).
+
 RECORDED DEPENDENCIES (coq/Engine/HistDepsDefs.v dbuild, theorems in Properties_C10hist.v; used by props/c10.py): graphs
 of fragment ABD = AB + statements with deps = gcc whose commands read HIDDEN files (sources, also ones the manifest never
 mentions, and generated files) and report them through a depfile that ninja moves into the deps log.  gen_graph's msvc /
@@ -106,7 +115,7 @@ histories that needed "outputs of surplus statements are not compared" with fbui
 always-dirty restat statement and leaves it STALE, the listed restat finding; fbuild re-ran it -- now agree).
 
   check(ctx_or_None, seed, n, dry=0.0, fault=False, deps=False) -> (mismatches, stats)     mismatches: list of Mismatch (text, replay)
-  python3 tools/histmodel.py <seed> <n> [--dry P] [--fault] [--deps] [--par] [--crash] [--keep DIR]      standalone
+  python3 tools/histmodel.py <seed> <n> [--dry P] [--fault] [--keepgoing] [--deps] [--depfile] [--par] [--crash] [--keep DIR]      standalone
 
 Model binary: $HISTMODEL_BIN if set, else hist_run next to vlib.build_model()'s model_run."""
 import os, sys, random, collections, copy, re
@@ -144,10 +153,12 @@ def run_model(lines, chunk=None, mode='hist'):
     return res
 
 # ------------------------------------------------------------------ generation (inside the fragment)
-def strip_graph(g, rnd=None):
-    """what gen_graph adds regardless of the feature table and the model does not have"""
+def strip_graph(g, rnd=None, no_inputless_phony=False):
+    """what gen_graph adds regardless of the feature table and the model does not have.  no_inputless_phony: for the -k N model
+    (HistFailKDefs.buildFK), which sits on the re-scanning loop (dirty_now): an input-less phony statement gets a source input"""
     for e in g.edges:
         e.pool = ''            # the console pool (scheduling only)
+        if no_inputless_phony and e.phony and not e.manifest_ins(): e.exp = [rnd.choice(sorted(g.sources))]
     return g
 
 GARBAGE_BASE = 10 ** 9        # model contents written by failing commands: GARBAGE_BASE + 1000 * k + node
@@ -173,7 +184,8 @@ def gen_history(rnd, sid, outside=False, dry=0.0, fault=False, deps=False, par=F
     if outside: feat['validations'] = 0.6
     wf_reads = True
     if deps: feat['deps'] = 0.6; wf_reads = rnd.random() < 0.75
-    g = strip_graph(engine.gen_graph(rnd, rnd.randrange(3, 13) if par else rnd.randrange(2, 10), feat, wf_reads), rnd)
+    g = strip_graph(engine.gen_graph(rnd, rnd.randrange(3, 13) if par else (rnd.randrange(3, 11) if fault == 'k' else rnd.randrange(2, 10)), feat, wf_reads),
+                    rnd, no_inputless_phony=(fault == 'k'))
     if deps: gcc_only(g, keep_depfile=(deps == 'depfile'))
     h = ec.Hist(sid, g)
     h.deps_mode = bool(deps); h.depfile_mode = (deps == 'depfile'); h.wf_reads = wf_reads; h.par_mode = bool(par)
@@ -197,7 +209,7 @@ def gen_history(rnd, sid, outside=False, dry=0.0, fault=False, deps=False, par=F
         if fstate['todo'] and ne and (last or rnd.random() < 0.35):
             # the one failing invocation of this history: -j1 -k1, one or two statements with a fault
             fstate['todo'] = False
-            fe = rnd.sample(ne, min(len(ne), rnd.choice([1, 1, 2])))
+            fe = rnd.sample(ne, min(len(ne), rnd.choice([2, 2, 3]) if fault == 'k' else rnd.choice([1, 1, 2])))
             if rnd.random() < 0.6:
                 # make it likely that the first of them has to run: its output is removed, its command line or a source changes
                 e = fe[0]; r = rnd.random(); src = [x for x in e.exp + e.imp if x in g.sources]
@@ -205,7 +217,12 @@ def gen_history(rnd, sid, outside=False, dry=0.0, fault=False, deps=False, par=F
                 elif r < 0.65 or not src: e.ver += 1; h.rewrite_manifest()
                 else: sname = rnd.choice(src); h.edit(sname, '%s.%d' % (sname, rnd.randrange(1000000)))
             fl = {e.out0: (rnd.choice([1, 1, 2, 3, 127, 255]), rnd.random() < 0.6) for e in fe}
-            st = h.build(rnd, targets, j=1, k=1, sched=sched, faults=fl)
+            if fault == 'k':
+                # -k N: make the other faulted statements likely to run too
+                for e in fe[1:]:
+                    if rnd.random() < 0.8: o = rnd.choice(e.outs); h.add(ec.Step("rm", "step rm %s" % hx(o), path=o)); h.tags.add("rm-output")
+                st = h.build(rnd, targets, j=1, k=rnd.choice([0, 0, 1, 2, 2, 3]), sched=sched, faults=fl); st.keep_going = True
+            else: st = h.build(rnd, targets, j=1, k=1, sched=sched, faults=fl)
             h.tags.add('fault')
             if rnd.random() < 0.85: st = h.build(rnd, targets, j=j, k=k, sched=sched)      # the NEXT invocation, plain
             return st
@@ -451,7 +468,26 @@ class Map:
         if not builds: return ident
         for st, b in ec.pair(h, builds):
             kd = step_kind(st)
-            if kd == 'fault':
+            if kd == 'fault' and getattr(st, 'keep_going', False):
+                # -k N: the model takes the statements in ninja's START order (what each one needs right before it), up to the finish of
+                # the N-th failing command (a command started after that must show as a difference), then the rest in manifest order
+                n = st.opts.get('k', 1); nfail = 0; before = []
+                for ev in b.events:
+                    if ev[0] == 'start' and ev[1] in s.by_out0: before.append(s.by_out0[ev[1]])
+                    if ev[0] == 'finish' and ev[2] != 0:
+                        nfail += 1
+                        if n and nfail >= n: break
+                if not before: return ident
+                prod = {o: k for k, e in enumerate(g.edges) for o in e.outs}
+                order = []
+                def need(k):
+                    if k in order: return
+                    for i in g.edges[k].manifest_ins():
+                        if i in prod: need(prod[i])
+                    order.append(k)
+                for k in before: need(k)
+                return order + [k for k in ident if k not in order]
+            elif kd == 'fault':
                 failed = [o for o, c in b.finished if c != 0]
                 if not failed or failed[0] not in s.by_out0: return ident
                 f = s.by_out0[failed[0]]
@@ -532,7 +568,7 @@ class Map:
                     for o0, (code, touch) in sorted(st.opts['faults'].items()):
                         nf += 1
                         fs.append('%d:%s' % (s.num[s.by_out0[o0]], 'w%d' % (GARBAGE_BASE + 1000 * nf) if touch else 'u'))
-                    S.append('f' + t + '@' + '/'.join(fs))
+                    S.append('f' + t + '@' + '/'.join(fs) + ('@k%d' % st.opts.get('k', 1) if getattr(st, 'keep_going', False) else ''))
                 elif k == 'kill':
                     if s.kill is None or s.kill[0] == 'skip': S.append('b' + t)         # not compared (see compare_hists)
                     else: S.append('k%s@%d:%s' % (t, len(g.edges) if s.kill[0] is None else s.num[s.kill[0]], s.kill[1]))
@@ -588,7 +624,9 @@ def parse_model(out, m):
                            ts=kv.get('ts', '1') == '1', tss=kv.get('tss', kv.get('ts', '1')) == '1', failed=kv.get('failed') == '1',
                            hit=kv.get('hit') == '1', exit=int(kv['exit']) if 'exit' in kv else None,
                            res=kv.get('res'), acc=int(kv['acc']) if 'acc' in kv else None, bf=bf, bfok=kv.get('bfok') == '1', conf=kv.get('conf') == '1',
-                           fe=None if kv.get('fe', '-') == '-' else m.order[int(kv['fe'])]))
+                           fe=None if kv.get('fe', '-') == '-' else m.order[int(kv['fe'].split('+')[-1])],
+                           fes=[] if kv.get('fe', '-') == '-' else [m.order[int(x)] for x in kv['fe'].split('+')],
+                           blk=None if kv.get('blk') in (None, '-') else [m.order[int(x)] for x in kv['blk'].split('+')], bud=kv.get('bud')))
     r['builds'] = builds
     return r
 
@@ -725,23 +763,36 @@ def compare_build(h, m, st, b, mb, prev_ok_same, nip, cnt, prev=None, flags=None
         if bool(e_failed) != mb['failed']:
             bad.append(('failed', 'engine: %s (exit=%s); model: failed=%s' % ('command %s failed' % e_failed if e_failed else 'no command failed', b.exit, mb['failed'])))
         if e_failed and (b.exit in (0, None)): bad.append(('failed', 'a command failed and the exit status is %s' % b.exit))
-        if len(e_failed) > 1: bad.append(('failed', 'with -k1 more than one command failed: %s' % e_failed))
-        ef = m.by_out0.get(e_failed[0]) if e_failed else None
-        if e_failed and mb['failed'] and ef != mb['fe']:
-            bad.append(('failed-edge', 'the command that failed: engine %s, model %s' % (e_failed[0], g.edges[mb['fe']].out0)))
-        if mb['failed'] and (not mb['run'] or mb['run'][-1] != mb['fe']): bad.append(('selfcheck', 'model: the failed statement is not the last one started (C05_exit_failed)'))
-        for side, f, run in (('engine', ef, e_run), ('model', mb['fe'] if mb['failed'] else None, m_run)):
-            if f is None: continue
-            dep = depends_on(g, f) & set(run)
-            if dep: bad.append(('dependents', '%s: %s depend on the failed %s and were started' % (side, nm(sorted(dep)), g.edges[f].out0)))
-            for o in g.edges[f].outs:
-                if side == 'engine' and b.log.get(o) != getattr(b, 'pre_log', {}).get(o):
-                    bad.append(('not-recorded', 'engine: the log entry of %s changed in the invocation in which its command failed' % o))
-                if side == 'model' and mb['nodes'][o][4] != (prev[1]['nodes'][o][4] if prev else None):
-                    bad.append(('not-recorded', 'model: the log entry of %s changed in the invocation in which its command failed' % o))
+        kg = getattr(st, 'keep_going', False); kN = st.opts.get('k', 1)
+        if kN and len(e_failed) > kN: bad.append(('failed', 'with -k%d %d commands failed: %s' % (kN, len(e_failed), e_failed)))
+        efs = [m.by_out0.get(o) for o in e_failed]
+        if set(efs) != set(mb['fes']):
+            bad.append(('failed-edge', 'the commands that failed: engine %s, model %s' % (e_failed, nm(mb['fes']))))
+        if not kg and mb['failed'] and (not mb['run'] or mb['run'][-1] != mb['fe']): bad.append(('selfcheck', 'model: the failed statement is not the last one started (C05_exit_failed)'))
+        # nothing is started once the budget is used up
+        if kN:
+            nf = 0
+            for ev in b.events:
+                if ev[0] == 'finish' and ev[2] != 0: nf += 1
+                elif ev[0] == 'start' and nf >= kN: bad.append(('budget', 'engine: %s started after %d command(s) had failed with -k%d' % (ev[1], nf, kN)))
+        if kg:
+            cnt['keep-going builds compared (-k %s)' % (kN if kN else '0 = unlimited')] += 1
+            if len(e_failed) >= 2: cnt['keep-going builds with 2 or more failed commands'] += 1
+            if kN and len(e_failed) == kN: cnt['keep-going builds that used the budget up'] += 1
+            if e_failed and mb['blk'] is not None: cnt['statements skipped because an input\'s statement was blocked (model)'] += len(set(mb['blk']) - set(mb['fes']))
+            if mb['ok'] and mb['bud'] is not None and mb['bud'] != ('inf' if not kN else str(kN - len(mb['fes']))): bad.append(('selfcheck', 'model: budget left %s after %d failures with -k%d' % (mb['bud'], len(mb['fes']), kN)))
+        for side, fl_, run in (('engine', [x for x in efs if x is not None], e_run), ('model', mb['fes'], m_run)):
+            for f in fl_:
+                dep = depends_on(g, f) & set(run)
+                if dep: bad.append(('dependents', '%s: %s depend on the failed %s and were started' % (side, nm(sorted(dep)), g.edges[f].out0)))
+                for o in g.edges[f].outs:
+                    if side == 'engine' and b.log.get(o) != getattr(b, 'pre_log', {}).get(o):
+                        bad.append(('not-recorded', 'engine: the log entry of %s changed in the invocation in which its command failed' % o))
+                    if side == 'model' and mb['nodes'][o][4] != (prev[1]['nodes'][o][4] if prev else None):
+                        bad.append(('not-recorded', 'model: the log entry of %s changed in the invocation in which its command failed' % o))
         if e_failed:
             cnt['failing builds: a command failed'] += 1
-            if st.opts['faults'][e_failed[0]][1]: flags['wfault'] = True; cnt['failing builds: the command rewrote its outputs first'] += 1
+            if any(st.opts['faults'][o][1] for o in e_failed): flags['wfault'] = True; cnt['failing builds: the command rewrote its outputs first'] += 1
         else: cnt['failing builds: no faulted command had to run'] += 1
     # per node
     try: exp = g.clean_contents(st.sources)
@@ -1035,14 +1086,14 @@ def hook(ctx, pid, dry=0.0, fault=False, deps=False, par=False, quick=400, thoro
         return
     handle = start_proof_check(ctx)
     n = quick if ctx.quick() else thorough
-    mism, stats = check(ctx, ctx.seed * 31 + int(pid[1:]) + (500 if par else 0) + (700 if deps == 'depfile' else 0), n, dry=dry, fault=fault, deps=deps, par=par)
+    mism, stats = check(ctx, ctx.seed * 31 + int(pid[1:]) + (500 if par else 0) + (700 if deps == 'depfile' else 0) + (900 if fault == 'k' else 0), n, dry=dry, fault=fault, deps=deps, par=par)
     finish_proof_check(ctx, handle)
     for x in mism[:5]:
         ctx.corr_broken.append('history model (HistDefs) differs from ninja in scenario %s [%s]: %s' % (x.sid, x.kind, x.text[:600]))
         ctx.replay_file('hist-mismatch', x.replay)
     if len(mism) > 5: ctx.corr_broken.append('history model (HistDefs): %d more mismatching histories' % (len(mism) - 5))
-    ctx.cov['hist_model_correspondence' + ('_parallel' if par else '') + ('_depfile' if deps == 'depfile' else '')] = stats
-    extra = [k for k in stats if k.startswith(('dry runs', 'failing builds', 'commands listed', 'successful builds', '... where', 'histories whose statements', 'builds where the original', '... statements', 'schedule', 'builds with at',
+    ctx.cov['hist_model_correspondence' + ('_parallel' if par else '') + ('_depfile' if deps == 'depfile' else '') + ('_keepgoing' if fault == 'k' else '')] = stats
+    extra = [k for k in stats if k.startswith(('dry runs', 'failing builds', 'commands listed', 'successful builds', '... where', 'histories whose statements', 'builds where the original', '... statements', 'keep-going', 'statements skipped', 'schedule', 'builds with at',
                                                'deps records', 'inside, ', 'histories cut short', 'histories with a dep', 'histories mixing', 'depfiles', 'builds where fbuild', 'histories with rm-depfile'))]
     ctx.cov.setdefault('distribution', {})[key] = {k: stats.get(k, 0) for k in extra + [
         'histories', 'inside the fragment', 'outside the fragment (model verdict)',
@@ -1102,7 +1153,7 @@ if __name__ == '__main__':
         for k in sorted(stats): print('%-60s %s' % (k, stats[k]))
         for x in mism[:10]: print('MISMATCH', x)
         print('%d bases, %d mismatching, %.1fs' % (n, len(mism), time.time() - t0)); sys.exit(1 if mism else 0)
-    mism, stats = check(None, seed, n, keep=keep, dry=dry, fault='--fault' in a, deps=('depfile' if '--depfile' in a else '--deps' in a), par='--par' in a)
+    mism, stats = check(None, seed, n, keep=keep, dry=dry, fault=('k' if '--keepgoing' in a else '--fault' in a), deps=('depfile' if '--depfile' in a else '--deps' in a), par='--par' in a)
     for k in sorted(stats): print('%-60s %s' % (k, stats[k]))
     for x in mism[:10]:
         print('MISMATCH', x)
